@@ -198,6 +198,13 @@ def run(ctx):
     for rn, facts, t in rets:
         ok = t[0] == "call" and t[1] == "numpy.linalg.matrix_rank" and t[2] and t[2][0] == ("n", "phi")
         ctx.ob("R-PRED", cr, "matrix_rank(Choi matrix)", ok, "rank of the Choi matrix" if ok else f"returns {show(t)[:80]}", rn)
+        if ok:
+            # matrix_rank(.., hermitian=True) reads one triangle only: the Choi matrix of a map that is not Hermiticity preserving
+            # (paired Kraus operators [[A, B]], A != B) is not Hermitian, and its rank would be computed from half of its entries
+            hk = kwarg(t, "hermitian")
+            okh = hk is None or hk == ("c", False)
+            ctx.ob("R-PRED", cr, "the rank is computed from the whole Choi matrix (no hermitian=True shortcut)", okh,
+                   "general (SVD) rank" if okh else f"matrix_rank(phi, hermitian={show(hk)}): only the lower triangle is read; for X -> U X V^+ (rank 1) the answer becomes d^2", rn)
 
     for f in (iqc, icp, ihp, ipo, itp, iun):
         r_tol_forward(ctx, f)
